@@ -174,7 +174,7 @@ class ClassInfo:
 
 
 class Module:
-    def __init__(self, name, path, src=None, unstable=frozenset()):
+    def __init__(self, name, path, src=None, unstable=frozenset(), methods=frozenset()):
         self.name, self.path = name, path
         if src is None:
             with open(path, encoding='utf-8') as fh:
@@ -186,22 +186,28 @@ class Module:
         except SyntaxError as e:
             raise AnalysisError('module %s does not parse: %s' % (path, e))
         strip_annotations(self.tree)
+        self.specialised = specialise_new_parameters(self.tree, name)
         self.renamed = canonicalise_private_names(self.tree, name)
         canonicalise_conditions(self.tree)
         desugar_map_filter(self.tree)
         desugar_fstrings(self.tree)
         self.factory_aliases = inline_factory_aliases(self.tree)
+        self.method_aliases = inline_bound_method_aliases(self.tree, methods)
         canonicalise_call_style(self.tree)
         inline_adjacent_conditions(self.tree)
         self.temporaries_inlined = inline_single_use_temporaries(self.tree)
+        self.query_temporaries = inline_query_temporaries(self.tree)
         normalise_idioms(self.tree)
+        self.method_aliases += inline_bound_method_aliases(self.tree, methods)
         inline_expression_closures(self.tree)
         inline_straightline_closures(self.tree)
         self.inlined = inline_expression_helpers(self.tree)
         self.propagated = propagate_simple_constants(self.tree)
+        self.local_constants = propagate_local_constants(self.tree)
         self.aliases_inlined = inline_pure_aliases(self.tree, unstable)
         self.tail_inlined = inline_tail_helpers(self.tree)
         self.procedures_inlined = inline_procedure_helpers(self.tree)
+        fold_constant_conditions(self.tree)
         for parent in ast.walk(self.tree):
             for ch in ast.iter_child_nodes(parent):
                 ch._parent = parent
@@ -284,15 +290,16 @@ class Repo:
                     with open(os.path.join(self.pkgdir, fn), encoding='utf-8') as fh:
                         sources.append(fh.read())
         unstable = computed_attribute_names(sources)
+        methods = plain_method_names(sources)
         for m in MODULE_NAMES:
             p = os.path.join(self.pkgdir, m + '.py')
             if not os.path.exists(p):
                 raise AnalysisError('anchor module missing: %s' % p)
-            self.modules[m] = Module(m, p, self.overrides.get(m), unstable)
+            self.modules[m] = Module(m, p, self.overrides.get(m), unstable, methods)
         # any further module in the package is loaded too (a refactor may add one)
         for fn in sorted(os.listdir(self.pkgdir)):
             if fn.endswith('.py') and fn[:-3] not in self.modules:
-                self.modules[fn[:-3]] = Module(fn[:-3], os.path.join(self.pkgdir, fn), None, unstable)
+                self.modules[fn[:-3]] = Module(fn[:-3], os.path.join(self.pkgdir, fn), None, unstable, methods)
         # literals moved to module level and imported elsewhere: second propagation pass over the importers
         for m in self.modules.values():
             extra = {}
@@ -2107,6 +2114,491 @@ def computed_attribute_names(sources):
     return frozenset(names)
 
 
+_PINNED_API = None
+
+
+def pinned_api():
+    """parameter lists of the package's functions at the pinned commit (sa/pinned_api.json, tools/gen_pinned_api.py)"""
+    global _PINNED_API
+    if _PINNED_API is None:
+        import json
+        fn = os.path.join(os.path.dirname(os.path.abspath(__file__)), 'pinned_api.json')
+        try:
+            with open(fn) as fh:
+                _PINNED_API = json.load(fh)
+        except OSError:
+            _PINNED_API = {}
+    return _PINNED_API
+
+
+def _fold_test(e):
+    """simplify a condition with constant parts; returns an ast node (possibly a Constant)"""
+    if isinstance(e, ast.UnaryOp) and isinstance(e.op, ast.Not):
+        v = _fold_test(e.operand)
+        if isinstance(v, ast.Constant):
+            return ast.copy_location(ast.Constant(not v.value), e)
+        e.operand = v
+        return e
+    if isinstance(e, ast.BoolOp):
+        isand = isinstance(e.op, ast.And)
+        vals = []
+        for x in e.values:
+            v = _fold_test(x)
+            if isinstance(v, ast.Constant):
+                if bool(v.value) == isand:
+                    continue            # neutral element (only its truth matters in a test)
+                # absorbing element: everything after it is not evaluated
+                vals.append(v)
+                break
+            vals.append(v)
+        if not vals:
+            return ast.copy_location(ast.Constant(isand), e)
+        if len(vals) == 1:
+            return vals[0]
+        if isinstance(vals[-1], ast.Constant) and len(vals) > 1:
+            # `a and False`: a is still evaluated; keep the expression (its truth value is known only if a has no say)
+            e.values = vals
+            return e
+        e.values = vals
+        return e
+    if isinstance(e, ast.Compare) and len(e.ops) == 1 and isinstance(e.left, ast.Constant) and isinstance(e.comparators[0], ast.Constant):
+        a, b, op = e.left.value, e.comparators[0].value, e.ops[0]
+        try:
+            if isinstance(op, ast.Is):
+                r = a is b
+            elif isinstance(op, ast.IsNot):
+                r = a is not b
+            elif isinstance(op, ast.Eq):
+                r = a == b
+            elif isinstance(op, ast.NotEq):
+                r = a != b
+            else:
+                return e
+        except Exception:       # noqa
+            return e
+        return ast.copy_location(ast.Constant(r), e)
+    return e
+
+
+def propagate_local_constants(tree):
+    """a local bound exactly once, by a top-level statement of its function, to a literal or to a tuple of names the
+    function does not bind (`text_types = (TexText, str)`) is replaced by that value where it is read"""
+    import copy
+    count = 0
+    for fn in ast.walk(tree):
+        if not isinstance(fn, ast.FunctionDef):
+            continue
+        stores = {}
+        for n in ast.walk(fn):
+            if isinstance(n, ast.Name) and isinstance(n.ctx, (ast.Store, ast.Del)):
+                stores[n.id] = stores.get(n.id, 0) + 1
+            elif isinstance(n, ast.arg):
+                stores[n.arg] = stores.get(n.arg, 0) + 1
+            elif isinstance(n, (ast.Global, ast.Nonlocal)):
+                for g in n.names:
+                    stores[g] = stores.get(g, 0) + 2
+            elif isinstance(n, (ast.FunctionDef, ast.ClassDef)) and n is not fn:
+                stores[n.name] = stores.get(n.name, 0) + 1
+        env = {}
+        for st in fn.body:
+            if isinstance(st, ast.Assign) and len(st.targets) == 1 and isinstance(st.targets[0], ast.Name) \
+                    and stores.get(st.targets[0].id, 0) == 1:
+                v = st.value
+                ok = isinstance(v, ast.Constant) and isinstance(v.value, (str, int, float, bool, type(None))) and not isinstance(v.value, bytes)
+                if isinstance(v, ast.Tuple) and v.elts and all(
+                        isinstance(e, ast.Name) and stores.get(e.id, 0) == 0 or isinstance(e, ast.Constant) for e in v.elts):
+                    ok = True
+                if ok:
+                    env[st.targets[0].id] = st
+        if not env:
+            continue
+
+        class Sub(ast.NodeTransformer):
+            def visit_Name(self, n):
+                if isinstance(n.ctx, ast.Load) and n.id in env:
+                    return ast.copy_location(copy.deepcopy(env[n.id].value), n)
+                return n
+        Sub().visit(fn)
+        fn.body = [b for b in fn.body if not any(b is e for e in env.values())] or [ast.copy_location(ast.Pass(), fn)]
+        count += len(env)
+    if count:
+        ast.fix_missing_locations(tree)
+    return count
+
+
+QUERY_METHODS = ('hasNext', 'peek', 'startswith', 'endswith')
+
+
+def inline_query_temporaries(tree):
+    """`more = src.hasNext()` directly followed by an if/elif chain whose tests are the only readers of `more`, and whose
+    tests call nothing but the non-moving cursor queries (hasNext / peek / startswith / endswith: R20.a), is the chain
+    with the query written out: between the assignment and any of the tests nothing can have moved the cursor"""
+    import copy
+    count = 0
+    for fn in ast.walk(tree):
+        if not isinstance(fn, ast.FunctionDef):
+            continue
+        uses = {}
+        for n in ast.walk(fn):
+            if isinstance(n, ast.Name):
+                uses[n.id] = uses.get(n.id, 0) + 1
+
+        def chain_tests(node):
+            tests = []
+            while isinstance(node, ast.If):
+                tests.append(node.test)
+                node = node.orelse[0] if len(node.orelse) == 1 and isinstance(node.orelse[0], ast.If) else None
+            return tests
+
+        def fix(stmts):
+            nonlocal count
+            i = 0
+            while i + 1 < len(stmts):
+                st, nxt = stmts[i], stmts[i + 1]
+                if isinstance(st, ast.Assign) and len(st.targets) == 1 and isinstance(st.targets[0], ast.Name) \
+                        and isinstance(st.value, ast.Call) and isinstance(st.value.func, ast.Attribute) \
+                        and st.value.func.attr in QUERY_METHODS and isinstance(st.value.func.value, ast.Name) \
+                        and all(_pure_simple(a) or isinstance(a, ast.Constant) for a in st.value.args) and not st.value.keywords \
+                        and isinstance(nxt, ast.If):
+                    nm = st.targets[0].id
+                    tests = chain_tests(nxt)
+                    hits = [x for t in tests for x in ast.walk(t) if isinstance(x, ast.Name) and x.id == nm]
+                    calls = [x for t in tests for x in ast.walk(t) if isinstance(x, ast.Call)]
+                    pure = all(isinstance(c.func, ast.Attribute) and c.func.attr in QUERY_METHODS
+                               or isinstance(c.func, ast.Name) and c.func.id in ('isinstance', 'len') for c in calls)
+                    if hits and len(hits) + 1 == uses.get(nm, 0) and pure:
+                        class S(ast.NodeTransformer):
+                            def visit_Name(self, m):
+                                if m.id == nm and isinstance(m.ctx, ast.Load):
+                                    return ast.copy_location(copy.deepcopy(st.value), m)
+                                return m
+                        node = nxt
+                        while isinstance(node, ast.If):
+                            node.test = S().visit(node.test)
+                            node = node.orelse[0] if len(node.orelse) == 1 and isinstance(node.orelse[0], ast.If) else None
+                        del stmts[i]
+                        count += 1
+                        continue
+                i += 1
+            for st in stmts:
+                for fld in ('body', 'orelse', 'finalbody'):
+                    sub = getattr(st, fld, None)
+                    if isinstance(sub, list) and sub and isinstance(sub[0], ast.stmt) and not isinstance(st, (ast.FunctionDef, ast.ClassDef)):
+                        fix(sub)
+                for h in getattr(st, 'handlers', []) or []:
+                    fix(h.body)
+        fix(fn.body)
+    if count:
+        ast.fix_missing_locations(tree)
+    return count
+
+
+def fold_constant_conditions(tree):
+    """conditions that consist of comparisons between literals (left behind when a helper was inlined with a literal
+    argument) are resolved: `if None is None or x:` is `if True:`, and an `if` with a constant test is its live arm"""
+    changed = [0]
+
+    def has_const_compare(e):
+        return any(isinstance(x, ast.Compare) and isinstance(x.left, ast.Constant) and len(x.comparators) == 1
+                   and isinstance(x.comparators[0], ast.Constant) for x in ast.walk(e))
+
+    def fix(stmts):
+        out = []
+        for st in stmts:
+            for fld in ('body', 'orelse', 'finalbody'):
+                sub = getattr(st, fld, None)
+                if isinstance(sub, list) and sub and isinstance(sub[0], ast.stmt):
+                    new = fix(sub)
+                    setattr(st, fld, new or ([ast.copy_location(ast.Pass(), st)] if fld == 'body' else []))
+            for h in getattr(st, 'handlers', []) or []:
+                h.body = fix(h.body) or [ast.copy_location(ast.Pass(), h)]
+            if isinstance(st, (ast.If, ast.While, ast.Assert)) and has_const_compare(st.test):
+                st.test = _fold_test(st.test)
+                changed[0] += 1
+                if isinstance(st, ast.If) and isinstance(st.test, ast.Constant):
+                    out += st.body if st.test.value else st.orelse
+                    continue
+                if isinstance(st, ast.Assert) and isinstance(st.test, ast.Constant) and st.test.value:
+                    continue
+            out.append(st)
+        return out
+    for fn in ast.walk(tree):
+        if isinstance(fn, ast.FunctionDef):
+            fn.body = fix(fn.body) or [ast.copy_location(ast.Pass(), fn)]
+    for n in ast.walk(tree):
+        if isinstance(n, ast.IfExp) and has_const_compare(n.test):
+            n.test = _fold_test(n.test)
+    if changed[0]:
+        ast.fix_missing_locations(tree)
+    return changed[0]
+
+
+def specialise_new_parameters(tree, modname):
+    """The properties quantify over the API of the pinned commit.  A parameter that a function of that API has gained
+    since (not in sa/pinned_api.json), that has a literal default (None / bool / number / string) and that no call in
+    the module supplies, is a switched-off feature: inside the function it is replaced by its default, and the conditions,
+    conditional expressions and `if` statements this decides are resolved.  Existing calls behave exactly like that."""
+    import copy
+    api = pinned_api().get(modname)
+    if not api:
+        return 0
+    # what calls in this module supply, by callee name
+    supplied_kw, max_pos = {}, {}
+    for n in ast.walk(tree):
+        if isinstance(n, ast.Call):
+            nm = n.func.id if isinstance(n.func, ast.Name) else (n.func.attr if isinstance(n.func, ast.Attribute) else None)
+            if nm is None:
+                continue
+            for k in n.keywords:
+                if k.arg is None:
+                    supplied_kw.setdefault(nm, set()).add('**')
+                else:
+                    supplied_kw.setdefault(nm, set()).add(k.arg)
+            npos = len(n.args) + (100 if any(isinstance(a, ast.Starred) for a in n.args) else 0)
+            max_pos[nm] = max(max_pos.get(nm, 0), npos)
+    count = 0
+    todo = []
+    for st in tree.body:
+        if isinstance(st, ast.FunctionDef):
+            todo.append((st.name, st, 0))
+        elif isinstance(st, ast.ClassDef):
+            for s2 in st.body:
+                if isinstance(s2, ast.FunctionDef):
+                    todo.append(('%s.%s' % (st.name, s2.name), s2, 1))
+    for qual, fn, skip in todo:
+        old = api.get(qual)
+        if old is None:
+            continue
+        a = fn.args
+        pos = a.posonlyargs + a.args
+        defaults = dict(zip([x.arg for x in pos][len(pos) - len(a.defaults):], a.defaults))
+        defaults.update({x.arg: d for x, d in zip(a.kwonlyargs, a.kw_defaults) if d is not None})
+        env = {}
+        for i, x in enumerate(pos + a.kwonlyargs):
+            nm = x.arg
+            if nm in old or nm not in defaults:
+                continue
+            d = defaults[nm]
+            if not (isinstance(d, ast.Constant) and (d.value is None or isinstance(d.value, (bool, int, float, str)))):
+                continue
+            kws = supplied_kw.get(fn.name, set())
+            if nm in kws or '**' in kws:
+                continue
+            if x in pos and max_pos.get(fn.name, 0) > pos.index(x) - skip:
+                continue
+            if any(isinstance(y, ast.Name) and y.id == nm and isinstance(y.ctx, (ast.Store, ast.Del)) for y in ast.walk(fn)):
+                continue
+            env[nm] = d
+        if not env:
+            continue
+
+        class Sub(ast.NodeTransformer):
+            def visit_Name(self, n):
+                if isinstance(n.ctx, ast.Load) and n.id in env:
+                    return ast.copy_location(copy.deepcopy(env[n.id]), n)
+                return n
+
+            def visit_FunctionDef(self, n):
+                if n is fn:
+                    n.body = [self.visit(b) for b in n.body]
+                    n.body = self.flatten(n.body)
+                    return n
+                # nested functions may shadow the name
+                if any(isinstance(y, ast.arg) and y.arg in env for y in ast.walk(n.args)):
+                    return n
+                self.generic_visit(n)
+                return n
+
+            def flatten(self, stmts):
+                out = []
+                for b in stmts:
+                    if isinstance(b, list):
+                        out += b
+                    elif b is not None:
+                        out.append(b)
+                return out
+
+            def visit_If(self, n):
+                n.test = _fold_test(self.visit(n.test))
+                n.body = self.flatten([self.visit(b) for b in n.body])
+                n.orelse = self.flatten([self.visit(b) for b in n.orelse])
+                if isinstance(n.test, ast.Constant):
+                    return (n.body if n.test.value else n.orelse) or None
+                if not n.body:
+                    n.body = [ast.copy_location(ast.Pass(), n)]
+                return n
+
+            def visit_IfExp(self, n):
+                n.test = _fold_test(self.visit(n.test))
+                n.body = self.visit(n.body)
+                n.orelse = self.visit(n.orelse)
+                if isinstance(n.test, ast.Constant):
+                    return n.body if n.test.value else n.orelse
+                return n
+
+            def visit_While(self, n):
+                n.test = _fold_test(self.visit(n.test))
+                n.body = self.flatten([self.visit(b) for b in n.body]) or [ast.copy_location(ast.Pass(), n)]
+                n.orelse = self.flatten([self.visit(b) for b in n.orelse])
+                return n
+
+            def visit_Assert(self, n):
+                n.test = _fold_test(self.visit(n.test))
+                if n.msg is not None:
+                    n.msg = self.visit(n.msg)
+                if isinstance(n.test, ast.Constant) and n.test.value:
+                    return None
+                return n
+
+            def visit_BoolOp(self, n):
+                self.generic_visit(n)
+                # value context: `<const> or x` / `<const> and x`
+                vals = list(n.values)
+                isand = isinstance(n.op, ast.And)
+                while len(vals) > 1 and isinstance(vals[0], ast.Constant):
+                    if bool(vals[0].value) == isand:
+                        vals = vals[1:]          # falls through to the next operand
+                    else:
+                        vals = vals[:1]
+                if len(vals) == 1:
+                    return vals[0]
+                n.values = vals
+                return n
+
+            def generic_block(self, n):
+                for fld in ('body', 'orelse', 'finalbody'):
+                    lst = getattr(n, fld, None)
+                    if isinstance(lst, list) and lst and isinstance(lst[0], ast.stmt):
+                        new = self.flatten([self.visit(b) for b in lst])
+                        setattr(n, fld, new or ([ast.copy_location(ast.Pass(), n)] if fld == 'body' else []))
+                for h in getattr(n, 'handlers', []) or []:
+                    h.body = self.flatten([self.visit(b) for b in h.body]) or [ast.copy_location(ast.Pass(), h)]
+                return n
+
+            def visit_For(self, n):
+                n.iter = self.visit(n.iter)
+                return self.generic_block(n)
+
+            def visit_Try(self, n):
+                return self.generic_block(n)
+
+            def visit_With(self, n):
+                for it in n.items:
+                    it.context_expr = self.visit(it.context_expr)
+                return self.generic_block(n)
+        Sub().visit(fn)
+        if not fn.body:
+            fn.body = [ast.Pass()]
+        count += len(env)
+    if count:
+        ast.fix_missing_locations(tree)
+    return count
+
+
+def plain_method_names(sources):
+    """names that the classes of the package define only as plain methods (never as a property, never stored as an
+    attribute): `x.<name>` then denotes the same callable however often it is read"""
+    plain, other = set(), set()
+    for src in sources:
+        try:
+            t = ast.parse(src)
+        except SyntaxError:
+            continue
+        for c in ast.walk(t):
+            if isinstance(c, ast.ClassDef):
+                for st in c.body:
+                    if isinstance(st, ast.FunctionDef):
+                        decos = {ast.unparse(d) for d in st.decorator_list}
+                        if any(d == 'property' or d.endswith(('.setter', '.getter', '.deleter')) or 'cached' in d for d in decos):
+                            other.add(st.name)
+                        else:
+                            plain.add(st.name)
+                    elif isinstance(st, ast.Assign):
+                        for tg in st.targets:
+                            if isinstance(tg, ast.Name):
+                                other.add(tg.id)
+            elif isinstance(c, ast.Attribute) and isinstance(c.ctx, (ast.Store, ast.Del)):
+                other.add(c.attr)
+    return frozenset(plain - other)
+
+
+_BUILTIN_METHODS = ('insert', 'append', 'extend', 'pop', 'remove', 'index', 'count', 'join', 'startswith', 'endswith', 'get',
+                    'items', 'keys', 'values', 'add', 'format', 'strip', 'lstrip', 'rstrip', 'find')
+
+
+def inline_bound_method_aliases(tree, methods):
+    """`has_next = src.hasNext ... has_next()`: a local bound exactly once to `<name>.<plain method>` (the root a
+    parameter or `self`, never rebound) and used only as the callee of calls is replaced by the attribute."""
+    import copy
+    count = 0
+    if not methods:
+        return 0
+    for fn in ast.walk(tree):
+        if not isinstance(fn, ast.FunctionDef):
+            continue
+        params = {a.arg for a in fn.args.args + fn.args.kwonlyargs + fn.args.posonlyargs}
+        stores = {}
+        for n in ast.walk(fn):
+            if isinstance(n, ast.Name) and isinstance(n.ctx, (ast.Store, ast.Del)):
+                stores[n.id] = stores.get(n.id, 0) + 1
+            elif isinstance(n, (ast.Global, ast.Nonlocal)):
+                for g in n.names:
+                    stores[g] = stores.get(g, 0) + 2
+        cands = {}
+        attr_stores = {n.attr for n in ast.walk(fn) if isinstance(n, ast.Attribute) and isinstance(n.ctx, (ast.Store, ast.Del))}
+        for st in ast.walk(fn):
+            if isinstance(st, ast.Assign) and len(st.targets) == 1 and isinstance(st.targets[0], ast.Name) \
+                    and isinstance(st.value, ast.Attribute) and isinstance(st.value.value, ast.Name) \
+                    and st.value.attr in methods and st.value.value.id in params and stores.get(st.value.value.id, 0) == 0 \
+                    and stores.get(st.targets[0].id, 0) == 1 and st.targets[0].id not in params:
+                cands[st.targets[0].id] = st
+            elif isinstance(st, ast.Assign) and len(st.targets) == 1 and isinstance(st.targets[0], ast.Name) \
+                    and isinstance(st.value, ast.Attribute) and isinstance(st.value.value, ast.Attribute) \
+                    and isinstance(st.value.value.value, ast.Name) and st.value.value.value.id in params \
+                    and stores.get(st.value.value.value.id, 0) == 0 and st.value.attr in _BUILTIN_METHODS \
+                    and st.value.value.attr not in attr_stores and st.value.value.attr not in methods \
+                    and stores.get(st.targets[0].id, 0) == 1 and st.targets[0].id not in params:
+                # `insert = self._contents.insert`: a method of the list/str held in a plain attribute the function
+                # never rebinds
+                cands[st.targets[0].id] = st
+        if not cands:
+            continue
+        # every load of the local must be the callee of a call
+        loads = {}
+        callee = {}
+        for n in ast.walk(fn):
+            if isinstance(n, ast.Name) and isinstance(n.ctx, ast.Load) and n.id in cands:
+                loads[n.id] = loads.get(n.id, 0) + 1
+            if isinstance(n, ast.Call) and isinstance(n.func, ast.Name) and n.func.id in cands:
+                callee[n.func.id] = callee.get(n.func.id, 0) + 1
+        ok = {k for k in cands if loads.get(k, 0) == callee.get(k, 0)}
+        if not ok:
+            continue
+
+        class Sub(ast.NodeTransformer):
+            def visit_Call(self, n):
+                self.generic_visit(n)
+                if isinstance(n.func, ast.Name) and n.func.id in ok:
+                    n.func = ast.copy_location(copy.deepcopy(cands[n.func.id].value), n.func)
+                return n
+
+            def visit_Assign(self, n):
+                if any(n is cands[k] for k in ok):
+                    return None
+                self.generic_visit(n)
+                return n
+        Sub().visit(fn)
+        for b in ast.walk(fn):
+            for fld in ('body', 'orelse', 'finalbody'):
+                lst = getattr(b, fld, None)
+                if isinstance(lst, list) and not lst and fld == 'body' and isinstance(b, (ast.If, ast.For, ast.While, ast.With, ast.FunctionDef)):
+                    lst.append(ast.Pass())
+        count += len(ok)
+    if count:
+        ast.fix_missing_locations(tree)
+    return count
+
+
 def inline_procedure_helpers(tree):
     """"Extract a few statements into a helper that returns nothing": a new module-level function without a returned
     value (no `return <expr>`, no yield; a bare `return` only as its last statement), every use of which is a call
@@ -2318,9 +2810,14 @@ def inline_expression_helpers(tree):
                 # substitution evaluates the same expression in the caller
                 if not isinstance(expr, (ast.BoolOp, ast.Compare, ast.UnaryOp)):
                     params_ = {x.arg for x in a.args}
-                    if not (st.name not in PINNED_FUNCTION_NAMES and isinstance(expr, ast.Call)
-                            and isinstance(expr.func, ast.Attribute) and isinstance(expr.func.value, ast.Name)
-                            and expr.func.value.id in params_):
+                    method_call = (st.name not in PINNED_FUNCTION_NAMES and isinstance(expr, ast.Call)
+                                   and isinstance(expr.func, ast.Attribute) and isinstance(expr.func.value, ast.Name)
+                                   and expr.func.value.id in params_)
+                    # a private helper that is one `return <expression over its parameters>` (each parameter read at
+                    # most once unless the arguments are plain names, which the call-site test below requires)
+                    private = st.name.startswith('_') and not st.name.startswith('__') and st.name not in PINNED_FUNCTION_NAMES \
+                        and not a.defaults
+                    if not (method_call or private):
                         continue
                 helpers[st.name] = st
     if not helpers:
